@@ -74,7 +74,7 @@ func (j *judge) order() {
 		if j.in.Strict && v.overflowCtx {
 			continue
 		}
-		seq, _, _, olCtx := expectedFull(j.in.Body, j.in.Roots, v)
+		seq, _, _, olCtx := expectedFull(j.body(), j.roots, v)
 		pos := map[Key]int{}
 		for i, k := range seq {
 			if _, dup := pos[k]; dup {
@@ -110,8 +110,14 @@ func (j *judge) order() {
 			}
 		}
 		if len(fails) == 0 {
-			best, bestV, bestSeq = nil, vi, seq
-			break
+			j.okVar[vi] = true
+			if len(best) > 0 || bestV < 0 {
+				best, bestV, bestSeq = nil, vi, seq
+			}
+			if j.npages == 1 {
+				break
+			}
+			continue // paged documents: one reading must explain all the pages (see check)
 		}
 		if bestV < 0 || len(fails) < len(best) {
 			best, bestV, bestSeq = fails, vi, seq
@@ -138,7 +144,7 @@ func (j *judge) order() {
 	}
 
 	// evidence: which step classes the judged pairs involved
-	_, class, ctxOf := expected(j.in.Body, j.in.Roots, variants[bestV])
+	_, class, ctxOf := expected(j.body(), j.roots, variants[bestV])
 	cross := 0
 	for _, p := range pairs {
 		ca, cb := class[p.a.ID], class[p.b.ID]
@@ -155,10 +161,32 @@ func (j *judge) order() {
 		if (ca == "neg" || ca == "pos") && ca == cb && ctxOf[na.ID] == ctxOf[nb.ID] && zLevel(na) == zLevel(nb) {
 			res.Count("judged_z_tie", 1)
 		}
+		// paged documents: pairs between a fixed box repeated from another page (or a box inside it)
+		// and a box of this page / of another fixed box; "ties" are the pairs of two child contexts of
+		// the same context painted by the same step at the same z-index level: tree order alone
+		// (document order across the pages) decides them
+		fa, fb := j.foreign[na.ID], j.foreign[nb.ID]
+		if fa != fb {
+			tie := (ca == "neg" || ca == "pos" || ca == "zero") && ca == cb && ctxOf[na.ID] == ctxOf[nb.ID] && zLevel(na) == zLevel(nb)
+			for _, f := range []int{fa, fb} {
+				switch f {
+				case -1:
+					res.Count("judged_fixed_earlier_pairs", 1)
+					if tie {
+						res.Count("judged_fixed_earlier_ties", 1)
+					}
+				case 1:
+					res.Count("judged_fixed_later_pairs", 1)
+					if tie {
+						res.Count("judged_fixed_later_ties", 1)
+					}
+				}
+			}
+		}
 	}
 	// report-only: discordant pairs that do not overlap (commuting paints)
 	seq := bestSeq
-	_, _, _, olBest := expectedFull(j.in.Body, j.in.Roots, variants[bestV])
+	_, _, _, olBest := expectedFull(j.body(), j.roots, variants[bestV])
 	pos := map[Key]int{}
 	for i, k := range seq {
 		pos[k] = i
@@ -185,12 +213,12 @@ func (j *judge) order() {
 	if disc > 0 {
 		res.Reports = append(res.Reports, fmt.Sprintf("%d pairs of layers whose regions do not overlap are painted in another order than the model's (commuting paints, not judged)", disc))
 	}
-	res.Nontrivial = cross >= 3
+	j.cross = cross
 }
 
 // why describes in which step the model paints a layer
 func (j *judge) why(k Key, v variant) string {
-	_, class, ctxOf := expected(j.in.Body, j.in.Roots, v)
+	_, class, ctxOf := expected(j.body(), j.roots, v)
 	n := j.nodes[k.ID].n
 	c := class[k.ID]
 	step := map[string]string{"neg": "step 3, negative z-index context", "block": "step 4/7, in-flow block", "float": "step 5, float",
